@@ -223,9 +223,15 @@ def connectHeaders (cfg : Cfg) (thost : Str) (tport : Nat) : Dict :=
   if hasKeyCI cfg.proxyHeaders (lit "host") then cfg.proxyHeaders
   else dictSet cfg.proxyHeaders (lit "Host") (hostPort thost tport)
 
-/-- the `Host` header `http.client.putrequest` generates (CPython 3.12.1): the tunnel host when
-there is one, else the connection's own; a host containing ":" is put in brackets (again, when
-urllib3 handed over an already bracketed literal) -/
+/-- `HTTPConnection.putrequest`: `if tunnel_host.startswith("[") and tunnel_host.endswith("]"):
+tunnel_host[1:-1]` — the brackets urllib3 put around an IPv6 tunnel host for the CONNECT line are
+hidden from `http.client` while it computes the `Host` header -/
+def unbracket (h : Str) : Str :=
+  if h.head? = some 91 && h.getLast? = some 93 then h.tail.dropLast else h
+
+/-- the `Host` header `http.client.putrequest` generates (CPython 3.12.1): the tunnel host (without
+the brackets, see `unbracket`) when there is one, else the connection's own; a host containing ":"
+is put in brackets -/
 def autoHost (host : Str) (port dflt : Nat) : Str :=
   let h := if host.contains 58 then [91] ++ host ++ [93] else host
   if port = dflt then h else h ++ [58] ++ decStr port
@@ -248,7 +254,7 @@ def requestEvent (cfg : Cfg) (c : Conn) (poolHttps : Bool) (r : Req) (target : S
   let hostHdr :=
     if absolute then r.netloc                                  -- `urlsplit(url).netloc`
     else match c.tunnel with
-      | some (h, p) => autoHost h p 443                        -- only HTTPSConnections tunnel
+      | some (h, p) => autoHost (unbracket h) p 443            -- only HTTPSConnections tunnel
       | none => autoHost cfg.proxyHost cfg.proxyPort (if poolHttps then 443 else 80)
   .request c.sid c.tunnel.isSome (methodStr r.method) target (wireHeaders cfg r.method r.body hostHdr hs)
 
